@@ -258,7 +258,7 @@ HARNESSES = [
             decides='new ids never collide with ids in either layer or issued before, whatever the random draws (same harness as C20 demo)',
             symbolic='3 random draws (ints in a window around all ids present)', bounds='<= 2 allocations; base {70,71}, changes {75}',
             oracle='set difference', pure_python=True, code=['DemoStorage.new_oid'],
-            quick=dict(timeout=150, shards=shards(nalloc=[2], commit_at=[-1])), thorough=dict(timeout=600, shards=shards(nalloc=[2, 3], commit_at=[-1, 0, 1]))),
+            quick=dict(timeout=150, shards=shards(nalloc=[2], commit_at=[-1], abort_at=[-1])), thorough=dict(timeout=600, shards=shards(nalloc=[2, 3], commit_at=[-1, 0, 1], abort_at=[-1, 0]))),
     Harness('demo_pack', h_demo_pack,
             decides='a pack through a demo storage (default gc, gc on, gc off) whose changes refer to base-only objects leaves every '
                     'object readable with its current state and the base unchanged',
